@@ -184,11 +184,14 @@ func FullAlphabet(c *Cast) func(w *World) []Event {
 		add("Undelegate(R1,V1,all)", "undelegate/all", func(w *World) sdk.Msg { return MsgUndelegate(c.R1.Acc, V[0], 100*TRB) })
 		add("Undelegate(R1,V1,half)", "undelegate/part", func(w *World) sdk.Msg { return MsgUndelegate(c.R1.Acc, V[0], 50*TRB) })
 		add("Undelegate(R1,V1,1loya)", "undelegate/1", func(w *World) sdk.Msg { return MsgUndelegate(c.R1.Acc, V[0], 1) })
+		// "most": what stays behind is smaller than any slash share, so an escrow has to follow the moved tokens
+		add("Undelegate(R1,V1,most)", "undelegate/most", func(w *World) sdk.Msg { return MsgUndelegate(c.R1.Acc, V[0], 100*TRB-TRB/2) })
 		add("Undelegate(S1,V1,all)", "undelegate/all", func(w *World) sdk.Msg { return MsgUndelegate(c.S1.Acc, V[0], 20*TRB) })
 		add("Undelegate(R2,V2,all)", "undelegate/all", func(w *World) sdk.Msg { return MsgUndelegate(c.R2.Acc, V[1], 60*TRB) })
 		add("Undelegate(V3,self,400)", "undelegate/validator", func(w *World) sdk.Msg { return MsgUndelegate(V[len(V)-1].Acc, V[len(V)-1], 400*TRB) })
 		add("Redelegate(R1,V1->V2,all)", "redelegate/all", func(w *World) sdk.Msg { return MsgRedelegate(c.R1.Acc, V[0], V[1], 100*TRB) })
 		add("Redelegate(R1,V1->V2,half)", "redelegate/part", func(w *World) sdk.Msg { return MsgRedelegate(c.R1.Acc, V[0], V[1], 50*TRB) })
+		add("Redelegate(R1,V1->V2,most)", "redelegate/most", func(w *World) sdk.Msg { return MsgRedelegate(c.R1.Acc, V[0], V[1], 100*TRB-TRB/2) })
 		add("Redelegate(R2,V2->V3,all)", "redelegate/all", func(w *World) sdk.Msg { return MsgRedelegate(c.R2.Acc, V[1], V[len(V)-1], 60*TRB) })
 		add("CancelUnbond(R1,V1,10)", "cancelunbond", func(w *World) sdk.Msg {
 			ubd, err := w.App.StakingKeeper.GetUnbondingDelegation(w.Ctx, c.R1.Acc, V[0].Val)
@@ -238,6 +241,13 @@ func FullAlphabet(c *Cast) func(w *World) []Event {
 				return nil
 			}
 			return MsgPropose(c.Payer.Acc, *r, disputetypes.Warning, feeOf(r, disputetypes.Warning)/2, false)
+		})
+		add("Propose(Payer,R1rep,warning,full-1)", "propose/warning-almost", func(w *World) sdk.Msg {
+			r := firstReportBy(w, c.R1.Acc)
+			if r == nil {
+				return nil
+			}
+			return MsgPropose(c.Payer.Acc, *r, disputetypes.Warning, feeOf(r, disputetypes.Warning)-1, false)
 		})
 		add("Propose(Payer,R1rep,warning,min)", "propose/warning-min", func(w *World) sdk.Msg {
 			r := firstReportBy(w, c.R1.Acc)
